@@ -1,6 +1,7 @@
 /-
 Lane `edit` (property C07): one case = token list + cut positions + handler scripts; the observation
-is the sink bytes and the number of invocations of every handler.
+is the sink bytes, the number of invocations of every handler, and the bytes the *documented* edit
+would give (model side: `Spec.EditDoc.rewrite`; implementation side: the harness's reference editor).
 
 Case syntax (three blank-separated fields, every byte string lower-case hex, `-` = empty):
   tokens   `;`-separated (or `-`):  T:<raw> | S:<raw>:<name>:<selfclosing 0/1>:<ns 0=html 1=foreign>:<attrs>
@@ -16,6 +17,7 @@ Case syntax (three blank-separated fields, every byte string lower-case hex, `-`
            content = h<hex> (html) | t<hex> (text) | s<w>_<w>… (streaming handler, w = h<hex> | t<hex>)
 -/
 import LolHtml.Model.EditDoc
+import LolHtml.Spec.EditDoc
 
 namespace LolHtml.Lane.Edit
 open LolHtml LolHtml.Model
@@ -174,9 +176,13 @@ def run (line : String) : String :=
       -- dispatcher registration order: selector handlers, then document handlers
       let H := hs.filter (·.sel.isSome) ++ hs.filter (·.sel.isNone)
       let sorted := cuts.foldr insertSorted []
-      let res := rewrite H encUtf8 (splitTokens sorted 0 toks)
+      let stream := splitTokens sorted 0 toks
+      let res := rewrite H encUtf8 stream
+      -- third field: the document-level specification (`Spec.EditDoc.rewrite`), compared with the
+      -- harness's independent reference editor
+      let spec := Spec.EditDoc.rewrite H encUtf8 stream
       if res.1.fault || res.1.faultRemoved then some "PANIC model-fault"
-      else some s!"{hexOrDash res.2} {natListStr ((List.range H.length).map res.1.inv)}"
+      else some s!"{hexOrDash res.2} {natListStr ((List.range H.length).map res.1.inv)} {hexOrDash spec} {if Spec.EditDoc.cleanRun H encUtf8 {} stream then 1 else 0}"
     r.getD "bad-case"
   | _ => "bad-case"
 
